@@ -54,8 +54,10 @@ const AFTER_COMMENT: [&str; 6] = ["", "  ", "\t", "\n", "    ", "\r\n"];
 
 pub fn comment_text(s: &mut Src, counter: &mut usize) -> String {
     *counter += 1;
-    match s.below(6) {
+    match s.below(8) {
         0 | 1 => format!(" c{}", counter),
+        6 => format!(" c{} \u{2028}x\u{85}y\u{2029} ä€😀", counter),
+        7 => format!(" c{}\r", counter),
         2 => format!("c{}", counter),
         3 => format!(" c{} more words ", counter),
         4 => format!("/ c{} // nested", counter),
